@@ -533,6 +533,20 @@ impl RoomAuthorisations {
                                         base64_encode(room_id),
                                     ));
                                 }
+                                //the source row is re-dated and re-signed: the caller must be allowed to change that row too,
+                                //at the date that is signed for the row: it is the date peers use
+                                let row_right = if edge.src_author.eq(&verifying_key) {
+                                    RightType::MutateSelf
+                                } else {
+                                    RightType::MutateAll
+                                };
+                                if !room.can(&verifying_key, &edge.src_name, edge.date, &row_right)
+                                {
+                                    return Err(Error::AuthorisationRejected(
+                                        edge.src_name.clone(),
+                                        base64_encode(room_id),
+                                    ));
+                                }
                                 let log_entry = EdgeDeletionEntry::build(
                                     room.id,
                                     &edge.edge,
